@@ -79,13 +79,19 @@ pub fn gen_doc(t: &mut Tape, gates: &Gates) -> Doc {
     // and every lexeme after the header keeps its place
     if lt.ratio(1, 6) {
         let nl = if lt.flag() { "\r\n" } else { "\n" };
-        let body = match lt.below(4) {
+        // (non-ASCII text in the description, also on the line that carries the closing marker; the
+        // code may go on behind the closing marker on the same line)
+        let body = match lt.below(7) {
             0 => format!("{}version 1.2{}programmer x{}", nl, nl, nl),
             1 => " one line ".to_string(),
             2 => format!("{}  indented{}  ", nl, nl),
+            3 => " Gr\u{f6}\u{df}e \u{1f600} ".to_string(),
+            4 => format!("{}Pr\u{fc}fung{}  \u{e4}\u{20ac}\u{1f600} ", nl, nl),
+            5 => format!("{}\u{e9}t\u{e9}{}", nl, nl),
             _ => String::new(),
         };
-        let header = format!("{}{}{}{}", crate::lexeme::OSCAT_OPEN_MARK, body, crate::lexeme::OSCAT_CLOSE_MARK, nl);
+        let after = if lt.ratio(1, 3) { " " } else { nl };
+        let header = format!("{}{}{}{}", crate::lexeme::OSCAT_OPEN_MARK, body, crate::lexeme::OSCAT_CLOSE_MARK, after);
         let shift = header.len();
         let lines = header.matches('\n').count();
         for p in doc.lay.pieces.iter_mut() {
@@ -99,11 +105,25 @@ pub fn gen_doc(t: &mut Tape, gates: &Gates) -> Doc {
         let close_line = header[..close_at].matches('\n').count();
         let close_col_start = header[..close_at].rfind('\n').map(|p| p + 1).unwrap_or(0);
         let col = close_at - close_col_start;
-        let mk = |start: usize, end: usize, line: usize, col: usize| crate::lexeme::Piece { start, end, line, col_bytes: col, col_chars: col, col_utf16: col, lexeme: None, trivia: Some(TriviaKind::Comment) };
-        doc.lay.pieces.insert(0, mk(close_at, close_at + crate::lexeme::OSCAT_CLOSE_MARK.len(), close_line, col));
-        doc.lay.pieces.insert(0, mk(0, open_len, 0, 0));
+        let colc = header[close_col_start..close_at].chars().count();
+        let colu = header[close_col_start..close_at].encode_utf16().count();
+        let mk = |start: usize, end: usize, line: usize, col: usize, colc: usize, colu: usize| crate::lexeme::Piece { start, end, line, col_bytes: col, col_chars: colc, col_utf16: colu, lexeme: None, trivia: Some(TriviaKind::Comment) };
+        doc.lay.pieces.insert(0, mk(close_at, close_at + crate::lexeme::OSCAT_CLOSE_MARK.len(), close_line, col, colc, colu));
+        doc.lay.pieces.insert(0, mk(0, open_len, 0, 0, 0, 0));
         doc.text = format!("{}{}", header, doc.text);
         doc.lay.text = doc.text.clone();
+        // (when the code goes on behind the closing marker, the columns of the pieces of that line move)
+        if after == " " {
+            let pos = crate::lexeme::PosIndex::new(&doc.text);
+            let text = doc.text.clone();
+            for p in doc.lay.pieces.iter_mut() {
+                let (l, cb, cc, cu) = pos.pos(p.start.min(text.len()));
+                p.line = l;
+                p.col_bytes = cb;
+                p.col_chars = cc;
+                p.col_utf16 = cu;
+            }
+        }
     }
     doc
 }
